@@ -281,7 +281,8 @@ def perturb(rng: Rng, sim, registry, vocab, steps: int) -> List[Any]:
     done = []
     dirty = ["node-shutdown", "node-startup", "node-reset", "node-service-stop", "node-service-disable", "node-service-pause",
              "node-service-restart", "node-application-close", "node-application-remove", "node-file-delete", "node-folder-scan",
-             "host-nic-disable", "network-port-disable", "node-file-corrupt", "node-service-start", "node-application-install"]
+             "host-nic-disable", "network-port-disable", "node-file-corrupt", "node-service-start", "node-application-install",
+             "node-file-create", "node-file-delete", "node-folder-create", "node-file-restore"]
     sub = {k: registry[k] for k in dirty if k in registry}
     t = 1
     for _ in range(steps):
@@ -292,6 +293,33 @@ def perturb(rng: Rng, sim, registry, vocab, steps: int) -> List[Any]:
             done.append(req)
         except Exception:
             pass
+        if rng.chance(1, 6):  # churn: delete an existing file and create one of the same name again (and sometimes restore)
+            try:
+                cands = [(n, fo, fi) for n in sim.network.nodes.values() for fo in n.file_system.folders.values() for fi in fo.files.values()]
+                if cands:
+                    n, fo, fi = rng.choice(cands)
+                    base = ["network", "node", n.config.hostname, "file_system"]
+                    seq = [base + ["delete", "file", fo.name, fi.name], base + ["create", "file", fo.name, fi.name, False]]
+                    if rng.chance(1, 3):
+                        seq.append(base + ["delete", "file", fo.name, fi.name])
+                        seq.append(base + ["restore", "file", fo.name, fi.name])
+                    for q in seq:
+                        sim.apply_request(q)
+                        done.append(q)
+            except Exception:
+                pass
+        if rng.chance(1, 12):  # API-level uninstall of a service (no agent action does this; scripts and tests do)
+            try:
+                from primaite.simulator.system.services.service import Service
+                n = rng.choice(list(sim.network.nodes.values()))
+                svcs = [k for k, v in n.software_manager.software.items() if isinstance(v, Service)
+                        and k not in ("arp", "icmp", "user-manager", "user-session-manager", "terminal")]
+                if svcs:
+                    name = rng.choice(sorted(svcs))
+                    n.software_manager.uninstall(name)
+                    done.append(["api:uninstall", n.config.hostname, name])
+            except Exception:
+                pass
         for _ in range(rng.below(3)):
             sim.pre_timestep(t)
             sim.apply_timestep(t)
@@ -324,7 +352,7 @@ def target_exists(sim, req: List[Any]) -> Optional[bool]:
     if r[0] == "network_interface":
         return len(r) >= 3 and r[1] in node.network_interface
     if r[0] == "acl":
-        return isinstance(node, Router) and not isinstance(node, Firewall) and len(r) >= 2
+        return isinstance(node, Router) and len(r) >= 2  # a Firewall is a Router and keeps the inherited acl object
     if r[0] in ("internal", "dmz", "external"):
         return isinstance(node, Firewall) and len(r) >= 4 and r[1] in ("inbound", "outbound") and r[2] == "acl"
     if r[0] == "file_system":
@@ -343,3 +371,112 @@ def target_exists(sim, req: List[Any]) -> Optional[bool]:
     if r[0] == "os":
         return len(r) == 2 and r[1] == "scan"
     return None
+
+
+class ValidatorSpy:
+    """Records which permission rules answered False while installed (class-level patch of every validator class)."""
+
+    def __init__(self):
+        self.false_messages: List[str] = []
+        self._orig = []
+
+    def __enter__(self):
+        from primaite.simulator.core import RequestPermissionValidator
+        import primaite.game.game  # noqa: F401  (imports every simulator module, so every subclass exists)
+        seen, todo = set(), [RequestPermissionValidator]
+        while todo:
+            c = todo.pop()
+            for sub in c.__subclasses__():
+                if sub not in seen:
+                    seen.add(sub)
+                    todo.append(sub)
+        spy = self
+        for cls in seen:
+            if "__call__" not in cls.__dict__:
+                continue
+            orig = cls.__dict__["__call__"]
+            self._orig.append((cls, orig))
+
+            def wrapped(v_self, request, context, orig=orig):
+                ok = orig(v_self, request, context)
+                if not ok:
+                    try:
+                        spy.false_messages.append(v_self.fail_message)
+                    except Exception:
+                        spy.false_messages.append("<no message>")
+                return ok
+            cls.__call__ = wrapped
+        return self
+
+    def __exit__(self, *a):
+        for cls, orig in self._orig:
+            cls.__call__ = orig
+
+    def reset(self):
+        self.false_messages = []
+
+
+def structure_mismatches(sim) -> List[dict]:
+    """Independent structural oracle: every dynamic level of the live request tree must name exactly the live components
+    of the OBJECT GRAPH and point at THAT component's own request manager (registries agree; no stale or missing route)."""
+    out: List[dict] = []
+    from primaite.simulator.core import RequestManager
+    from primaite.simulator.system.applications.application import Application
+    from primaite.simulator.system.services.service import Service
+
+    def sub(rm, key):
+        rt = rm.request_types.get(key)
+        return rt.func if rt is not None and isinstance(rt.func, RequestManager) else None
+
+    top = sim._request_manager
+    net = sub(top, "network")
+    node_rm = sub(net, "node") if net else None
+    if node_rm is None:
+        return [{"kind": "no-node-manager"}]
+    nodes = {n.config.hostname: n for n in sim.network.nodes.values()}
+
+    def compare(level: str, where: str, rm, live: Dict[Any, Any]):
+        if rm is None:
+            if live:
+                out.append({"kind": "missing-manager", "level": level, "where": where})
+            return
+        keys = {k for k, rt in rm.request_types.items() if isinstance(rt.func, RequestManager)}
+        for k in keys - set(live):
+            out.append({"kind": "stale-route", "level": level, "where": where, "key": str(k)})
+        for k in set(live) - keys:
+            out.append({"kind": "missing-route", "level": level, "where": where, "key": str(k)})
+        for k in keys & set(live):
+            if rm.request_types[k].func is not live[k]._request_manager:
+                out.append({"kind": "route-points-at-other-object", "level": level, "where": where, "key": str(k)})
+
+    compare("node", "network", node_rm, nodes)
+    for name, n in nodes.items():
+        nrm = n._request_manager
+        sw = n.software_manager.software
+        compare("service", name, sub(nrm, "service"), {k: v for k, v in sw.items() if isinstance(v, Service)})
+        compare("application", name, sub(nrm, "application"), {k: v for k, v in sw.items() if isinstance(v, Application)})
+        compare("network_interface", name, sub(nrm, "network_interface"), dict(n.network_interface))
+        fs_rm = sub(nrm, "file_system")
+        if fs_rm is None:
+            continue
+        folders = {f.name: f for f in n.file_system.folders.values()}
+        fo_rm = sub(fs_rm, "folder")
+        # deleted folders keep (or lose) their route depending on the code; only live folders are asserted to be routed correctly
+        if fo_rm is not None:
+            for fname, folder in folders.items():
+                rt = fo_rm.request_types.get(fname)
+                if rt is None:
+                    out.append({"kind": "missing-route", "level": "folder", "where": name, "key": fname})
+                    continue
+                if rt.func is not folder._request_manager:
+                    out.append({"kind": "route-points-at-other-object", "level": "folder", "where": name, "key": fname})
+                fi_rm = sub(folder._request_manager, "file")
+                files = {f.name: f for f in folder.files.values()}
+                if fi_rm is not None:
+                    for finame, file in files.items():
+                        frt = fi_rm.request_types.get(finame)
+                        if frt is None:
+                            out.append({"kind": "missing-route", "level": "file", "where": f"{name}:{fname}", "key": finame})
+                        elif frt.func is not file._request_manager:
+                            out.append({"kind": "route-points-at-other-object", "level": "file", "where": f"{name}:{fname}", "key": finame})
+    return out
